@@ -41,7 +41,9 @@ impl SystemTime {
             }
             (t, preempt)
         });
-        if preempt && !std::thread::panicking() {
+        // never inside a tokio runtime context (the S3 strategies): the SDK's exchange is one atomic step of the
+        // simulation, and tokio's per-thread context must not be seen by another simulated task
+        if preempt && !std::thread::panicking() && tokio::runtime::Handle::try_current().is_err() {
             shuttle::thread::yield_now();
         }
         SystemTime(t)
